@@ -64,14 +64,14 @@ func (e *Exec) noteCmp(a, b *Node, strict, signed bool) {
 		if signed && a.val >= half {
 			return
 		}
-		if signed {
-			if r := e.rng(b); r.hi >= half {
-				return
-			}
-		}
 		lo := a.val
 		if strict {
 			lo++
+		}
+		if signed {
+			// 0 <= c <=s b: b is non-negative, so as unsigned it lies in [c, 2^(w-1)-1]
+			e.setBound(b, lo, half-1)
+			return
 		}
 		e.setBound(b, lo, mask(b.w))
 	}
